@@ -109,7 +109,8 @@ C13_OBS = [
     ob("O13.1b", DIR + "dir_remove_all_rmdir_ok", "... unlink fails (any errno), rmdir succeeds: unlinkat(0) then unlinkat(AT_REMOVEDIR), Ok", stubs=RA_STUBS, covers_may_be_unsat=["unlinked", "scanned", "scan open failed"], cost=5),
     ob("O13.3a", DIR + "dir_remove_inode_contract", "remove_inode(dir,name) real body, arbitrary kernel: unlinkat(0) then unlinkat(AT_REMOVEDIR) on the same (dir,name); Ok if either succeeds; else the errno reported is rmdir's unless that is ENOTDIR (then unlink's)", stubs=["syscalls::unlinkat"], cost=6),
     ob("O13.3d", DIR + "dir_ignore_enoent_all_errnos", "ignore_enoent for EVERY errno 1..=133 in OsError / RawOsError / wrapped form and for non-errno classes: Ok iff the input was Ok or its errno is ENOENT", cost=2),
-    ob("O13.3b", DIR + "dir_scan_open_fails", "utils::remove_all, every non-refused name <= L, removal failed with EACCES and the directory-scan open fails with EACCES (remove_inode replaced by its contract O13.3a): the open is openat(dir,name) with O_DIRECTORY|O_NOFOLLOW, the failure is REPORTED (Ok only for ENOENT), exactly two steps", stubs=["remove_inode", "syscalls::openat_follow", "Dir::read_from"], covers_may_be_unsat=["listing failed", "directory vanished"], timeout={"quick": 2700, "thorough": 5400}, mem_gb=24, cost=20),
+    ob("O13.3e", DIR + "dir_scan_open_flags", "utils::remove_all, every non-refused name <= L, removal failed with EACCES, the scan open SUCCEEDS (path cut at the listing): the slow path is taken, the open is openat(dir, name) with O_DIRECTORY|O_NOFOLLOW (no O_CREAT/O_TRUNC) and the listing is read from exactly that descriptor", stubs=["remove_inode", "syscalls::openat_follow", "Dir::read_from"], cost=8),
+    ob("O13.3b", DIR + "dir_scan_open_fails", "utils::remove_all, every non-refused name <= L, removal failed with EACCES and the directory-scan open fails with EACCES (remove_inode replaced by its contract O13.3a): the open is openat(dir,name) with O_DIRECTORY|O_NOFOLLOW, the failure is REPORTED (Ok only for ENOENT), exactly two steps", stubs=["remove_inode", "syscalls::openat_follow", "Dir::read_from"], covers_may_be_unsat=["listing failed", "directory vanished"], tiers=("thorough",), timeout={"thorough": 5400}, mem_gb=24, cost=20),
     ob("O13.3c", DIR + "dir_scan_listing", "... removal failed with ENOTEMPTY, scan open succeeds, listing fails with an arbitrary errno: ENOENT => one more removal attempt on the same (dir,name), else that errno; sub-directory fd closed", stubs=["remove_inode", "syscalls::openat_follow", "Dir::read_from"], covers_may_be_unsat=["scan open failed"], tiers=("thorough",), timeout={"thorough": 5400}, mem_gb=30, cost=6),
     ob("O13.1f", DIR + "dir_remove_all_scan_enotempty", "... unlink and rmdir fail with ENOTEMPTY (non-empty directory), scan open succeeds: the open is openat(dir, name, O_DIRECTORY|O_NOFOLLOW), listing failure is reported, sub-directory fd closed [monolithic: no contract stub]", stubs=RA_STUBS, covers_may_be_unsat=["unlinked", "rmdir-ed", "refused", "scan open failed"], tiers=("thorough",), timeout={"thorough": 5400}, mem_gb=30, cost=6),
     ob("O13.1g", DIR + "dir_remove_all_open_eacces", "... unlink, rmdir and the scan open all fail with EACCES: EACCES is reported (never Ok), exactly three calls, scan open flags as above [monolithic]", stubs=RA_STUBS, covers_may_be_unsat=["unlinked", "rmdir-ed", "scanned"], tiers=("thorough",), timeout={"thorough": 5400}, mem_gb=30, cost=6),
@@ -230,8 +231,8 @@ O_NEW_FAIL = ob("O10.4", PF + "procfs_new_all_fail", "ProcfsHandle::new when fso
 O_GLOBAL_INIT = ob("O10.5", PF + "procfs_global_handle_init_fault", "first use of GLOBAL_PROCFS_HANDLE when ProcfsHandle::new() fails (as it does under fd exhaustion: O10.4): must not panic [KNOWN FINDING KF1: it does]", stubs=["ProcfsHandle::new"], covers_may_be_unsat=["reached"], cost=2)
 C10_OBS = [O_NEW_FAIL, O_GLOBAL_INIT, O_TFF_FAULT, O_O2_EAGAIN, O_O2_ENOSYS, O_O2_EMFILE, O_FETCH_MNT, O_SAME_MNT, O_IS_PROCFS] + \
     pick(C14_OPS, "O14.6.base", "O14.5.base", "O14.1.base") + \
-    pick(C13_OBS, "O13.1a", "O13.1b", "O13.1g", "O13.3a", "O13.3b", "O13.3c", "O13.3d") + [o for o in O_ERR_EQUIV]
-C03_OBS = [O_RESOLVE_PARENT] + [o for o in C14_OPS if o["id"].endswith(".base")] + O_RA_TOP[:1] + pick(C13_OBS, "O13.1a", "O13.1b", "O13.3a", "O13.3b", "O13.1f")
+    pick(C13_OBS, "O13.1a", "O13.1b", "O13.1g", "O13.3a", "O13.3e", "O13.3b", "O13.3c", "O13.3d") + [o for o in O_ERR_EQUIV]
+C03_OBS = [O_RESOLVE_PARENT] + [o for o in C14_OPS if o["id"].endswith(".base")] + O_RA_TOP[:1] + pick(C13_OBS, "O13.1a", "O13.1b", "O13.3a", "O13.3e", "O13.3b", "O13.1f")
 C11_OBS = C11_CAPI + pick(C14_OPS, "O14.5.base", "O14.5.nobase", "O14.6.base", "O14.1.base", "O14.4.base", "O14.7.base") + [O_RESOLVE_PARENT, O_TRY_FROM_FD, O_OPEN_OKPATH, O_OPEN_LOOKUPFAIL, O_OF_LINK] + pick(C13_OBS, "O13.3c")
 
 WALK_STUBS = ["syscalls::openat_follow", "syscalls::statx", "syscalls::readlinkat", "FdExt>::metadata", "try_clone_to_owned"]
@@ -316,7 +317,7 @@ PROPERTIES = {
                        "call that the name is one '/'-free component relative to a descriptor (never AT_FDCWD/absolute), and that opens carry O_NOFOLLOW (create_file, mkdir_all, remove_all scan, procfs open).",
         "outside": "call sites inside the emulated walks (do_resolve, opath_resolve: not executable here); the O_CLOEXEC added inside syscalls::openat2 itself (variadic libc::syscall unsupported by Kani: openat2 is stubbed as a whole); 'exactly one textual call site of openat_follow' (syntactic)",
         "assumptions": ["rustix entry points replaced by recording stubs in layer 1", "kernel K / resolver contract stubs in layer 3"],
-        "obligations": C05_WRAP + [O_O2_OPEN, O_O2_RESOLVE, O_RP_MASK, O_OPEN_OKPATH] + pick(C14_OPS, "O14.5.base", "O14.6.base") + pick(C13_OBS, "O13.3b"),
+        "obligations": C05_WRAP + [O_O2_OPEN, O_O2_RESOLVE, O_RP_MASK, O_OPEN_OKPATH] + pick(C14_OPS, "O14.5.base", "O14.6.base") + pick(C13_OBS, "O13.3e", "O13.3b"),
     },
 }
 
@@ -362,8 +363,8 @@ NOT_APPLICABLE = {
 QUICK_SETS = {
     "C08": ["O8.4a", "O8.4c", "O8.4d", "O6.4c"],
     "C03": ["O14.0", "O14.1.base", "O14.5.base", "O14.6.base", "O14.7.base", "O14.4.base", "O13.2a", "O13.1a", "O13.1b", "O13.3a"],
-    "C05": ["O5.1a", "O5.1b", "O5.1c", "O5.1d", "O5.2a", "O5.2b", "O5.2c", "O14.5.base", "O13.3b"],
-    "C10": ["O10.5", "O10.3", "O10.1b", "O10.1c", "O6.1", "O14.5.base", "O14.6.base", "O13.1b", "O13.3a", "O13.3b", "O13.3d", "OE.rawos_d0"],
+    "C05": ["O5.1a", "O5.1b", "O5.1c", "O5.1d", "O5.2a", "O5.2b", "O5.2c", "O14.5.base", "O13.3e"],
+    "C10": ["O10.5", "O10.3", "O10.1b", "O10.1c", "O6.1", "O14.5.base", "O14.6.base", "O13.1b", "O13.3a", "O13.3d", "OE.rawos_d0"],
     "C11": ["O11.c1", "O11.c4", "O14.5.base", "O14.5.nobase", "O14.6.base", "O14.1.base", "O14.7.base", "O6.3", "O6.4c"],
     "C14": ["O14.0", "O14.1.base", "O14.2.base", "O14.3.base", "O14.4.base", "O14.5.base", "O14.6.base", "O14.6.nobase", "O14.7.base", "O14.8", "OE.inval_d0", "OE.rawos_d0"],
 }
